@@ -386,8 +386,62 @@ def probe_double_residual(ctx):
                           {"spec": spec, "how": "vlib.genfw.run(spec); vlib.engine_corr.oracles -> junction in != out, people created"})
 
 
+def probe_two_types(ctx):
+    """
+    Residual junctions in EVERY population type of a framework with several types: each junction must pass on its whole inflow (stated proportions + remainder
+    through the '>' link) and must be emptied by the initial flush, whichever transition matrix its type belongs to.
+    """
+    from vlib import initgen
+    from atomica.model import Model
+
+    r = ctx.rng
+    P = dict(timescale=None, function=None, min=None, max=None, timed=False, targetable=False, databook=True)
+    for k in range(ctx.n(2, 12)):
+        types = ["ta", "tb"]
+        pops, pt_of = ["pa", "pb"], {"pa": "ta", "pb": "tb"}
+        comps, pars, trans = [], [], []
+        for t, pop, sfx in (("ta", "pa", "x"), ("tb", "pb", "y")):
+            comps += [{"name": "c0" + sfx, "kind": "normal", "databook": True, "pop_type": t, "init": {pop: r.choice([100.0, 250.0])}},
+                      {"name": "c1" + sfx, "kind": "normal", "databook": True, "pop_type": t, "init": {pop: r.choice([10.0, 40.0])}},
+                      {"name": "j0" + sfx, "kind": "junction", "databook": True, "pop_type": t, "init": {pop: r.choice([0.0, 20.0])}}]
+            pars += [dict(P, name="ra0" + sfx, format="rate", pop_type=t, value={pop: r.choice([0.2, 0.5])}), dict(P, name="pr0" + sfx, format="proportion", pop_type=t, value={pop: r.choice([0.3, 0.25, 0.0])})]
+            trans += [["c0" + sfx, "j0" + sfx, "ra0" + sfx], ["j0" + sfx, "c0" + sfx, "pr0" + sfx], ["j0" + sfx, "c1" + sfx, ">"]]
+        spec = {"comps": comps, "characs": [], "pars": pars, "transitions": trans, "pops": pops, "pop_types": types, "pop_type_of": pt_of, "transfers": [], "settings": [2000, 2003, r.choice([1.0, 0.5])]}
+        key = {"probe": "residual-junction-in-every-population-type", "k": k}
+        try:
+            fw, data, parset, settings = initgen.build(spec)
+            m = Model(settings, fw, parset)
+            m.process()
+        except Exception as e:
+            ctx.brk("correspondence", f"two-type residual-junction model could not be run: {type(e).__name__}: {str(e)[:200]}", case=key, spec=spec)
+            continue
+        ctx.count("probe.two_types")
+        ctx.case(key, nontrivial=True)
+        for pop in m.pops:
+            sfx = "x" if pop.name == "pa" else "y"
+            j = pop.get_comp("j0" + sfx)
+            jin = sum(np.asarray(l.vals, dtype=float) for l in j.inlinks)
+            jout = sum(np.asarray(l.vals, dtype=float) for l in j.outlinks)
+            n_out = len(j.outlinks)
+            bad = None
+            if n_out != 2:
+                bad = f"junction {j.name} of population {pop.name} (type {pop.type}) has {n_out} outflow links; the framework states 2 (pr0{sfx} and the residual '>')"
+            elif not np.allclose(jin[:-1], jout[:-1], rtol=1e-9, atol=1e-9):
+                bad = f"junction {j.name} of population {pop.name}: inflow {jin[:-1].tolist()} but outflow {jout[:-1].tolist()}"
+            elif np.any(np.abs(np.asarray(j.vals, dtype=float)) > 1e-12):
+                bad = f"junction {j.name} of population {pop.name} is not empty: {np.asarray(j.vals).tolist()}"
+            else:
+                tot = sum(np.asarray(c.vals, dtype=float) for c in pop.comps)
+                if not np.allclose(tot, tot[0], rtol=1e-9):
+                    bad = f"population {pop.name}: total {tot.tolist()} changes although nobody enters or leaves (people put into the junction by the databook vanish)"
+            if bad:
+                ctx.violation({"api": "Population.__init__", "case": "residual-link-missing-in-later-population-type"}, bad, {"spec": spec, "how": "vlib.initgen.build(spec); Model(...).process(); junction inflow == outflow, junction empty, total constant"})
+                break
+
+
 def run(ctx):
     probe_double_residual(ctx)
+    probe_two_types(ctx)
     engine_corr.selfcheck_ref(ctx, 2)
     engine_corr.run_stream(ctx, PROPERTY, ctx.n(120, 3000), regimes=REGIMES, focus=focus, workers=12)
 
